@@ -187,6 +187,8 @@ func fatal(args ...interface{}) {
 }
 
 type producer struct {
+	pend   []*pending
+	sem    chan struct{}
 	out    string
 	tmp    string
 	st     *stats
@@ -245,7 +247,17 @@ func (p *producer) emit(key string, prog idlast.Program, cases []*Case, raws *ra
 	p.st.Evaluations += w.Total()
 }
 
-// program runs one program (a tree under root) through everything.
+// pending is a program whose in-process cases exist and whose compiled cases may still be running.
+type pending struct {
+	key   string
+	prog  idlast.Program
+	cases []*Case
+	raws  *rawPool
+	comp  chan *compiled
+}
+
+// program runs one program (a tree under root) through everything in process and starts the
+// compiled part (if asked) on a goroutine; the shard is written by finish.
 func (p *producer) program(key, name, root, mainRel string, sources map[string]string, intended idlast.Program, comp *compiler) {
 	p.st.Programs++
 	main, err := parseTree(root, mainRel)
@@ -279,15 +291,53 @@ func (p *producer) program(key, name, root, mainRel string, sources map[string]s
 	}
 	raws := &rawPool{}
 	ctx := &progCtx{name: name, main: main, all: all, sources: sources, mainRel: mainRel, raws: raws, limit: p.limit, serial: &p.serial, st: p.st}
-	cases := ctx.inProcess()
+	pd := &pending{key: key, prog: astdump.Program(main), raws: raws}
+	pd.cases = ctx.inProcess()
+	if len(pd.cases) > 0 {
+		pd.cases[0].Sources = sources
+		pd.cases[0].Main = mainRel
+	}
 	if comp != nil {
-		cases = append(cases, comp.run(ctx, key, root)...)
+		// the tree is copied before the caller removes it
+		copyRoot, _ := os.MkdirTemp(p.tmp, "tree")
+		if err := copyTree(root, copyRoot); err != nil {
+			fatal(err)
+		}
+		pd.comp = make(chan *compiled, 1)
+		p.sem <- struct{}{}
+		go func() {
+			defer func() { <-p.sem }()
+			pd.comp <- comp.run(ctx, key, copyRoot)
+		}()
 	}
-	if len(cases) > 0 {
-		cases[0].Sources = sources
-		cases[0].Main = mainRel
+	p.pend = append(p.pend, pd)
+}
+
+func (p *producer) finish() {
+	for _, pd := range p.pend {
+		if pd.comp != nil {
+			res := <-pd.comp
+			if res.log != "" {
+				fmt.Fprint(os.Stderr, res.log)
+			}
+			for k, v := range res.counters {
+				switch k {
+				case "panics":
+					p.st.Panics += v
+				case "lookups":
+					p.st.Lookups += v
+				case "lookups_found":
+					p.st.LookupsFound += v
+				case "lookups_found_in_another_file":
+					p.st.LookupsAcrossFiles += v
+				default:
+					p.st.Compiled[k] += v
+				}
+			}
+			pd.cases = append(pd.cases, res.cases...)
+		}
+		p.emit(pd.key, pd.prog, pd.cases, pd.raws)
 	}
-	p.emit(key, astdump.Program(main), cases, raws)
 }
 
 func stripComments(p idlast.Program) {
@@ -354,7 +404,7 @@ func main() {
 	}
 	defer os.RemoveAll(tmp)
 	st := &stats{Kinds: map[string]int{}, Shapes: map[string]int{}, Generator: map[string]int{}, Compiled: map[string]int{}, seen: map[string]bool{}}
-	p := &producer{out: absOut, tmp: tmp, st: st, limit: 40}
+	p := &producer{out: absOut, tmp: tmp, st: st, limit: 40, sem: make(chan struct{}, 3)}
 
 	nprog, ncomp := 8, 2
 	if *tier == "thorough" {
@@ -367,7 +417,7 @@ func main() {
 		if dir == "" {
 			dir = filepath.Join(tmp, "compiled")
 		}
-		comp = newCompiler(dir, *thriftgo, *repo, st)
+		comp = newCompiler(dir, *thriftgo, *repo)
 	}
 
 	// ---- corpus
@@ -409,6 +459,7 @@ func main() {
 		os.RemoveAll(root)
 	}
 
+	p.finish()
 	if st.IntendedMismatch > 0 {
 		fatal("c15: the real parser did not deliver the intended AST for", st.IntendedMismatch, "program(s)")
 	}
